@@ -267,7 +267,22 @@ REPROJ = [
     ('Gbig/3857<-4326/wide', 'EPSG:3857', 5000, 'EPSG:4326', [('1.1.1', False), ('1.3.0', True)]),
     # a grid in degrees (to 64 degrees north), requests in metres
     ('Gbig/4326<-3857/wide', 'EPSG:4326', 0.05, 'EPSG:3857', [('1.1.1', False), ('1.3.0', False)]),
+    # cascaded layers (no cache: the layer is the WMS source, which speaks one SRS only and covers the extent of the grid)
+    ('Gbig/cascade/3857<-4326', 'EPSG:3857', 5000, 'EPSG:4326', [('1.1.1', False), ('1.3.0', True)]),
+    ('Gbig/cascade/4326<-3857', 'EPSG:4326', 0.05, 'EPSG:3857', [('1.1.1', False), ('1.3.0', False)]),
+    ('Gbig/cascade/3857', 'EPSG:3857', 5000, 'EPSG:3857', [('1.1.1', False), ('1.3.0', False)]),
 ]
+
+
+def _same(x, y):
+    return x, y
+
+
+def transforms(gsrs, rsrs):
+    """(request SRS -> grid SRS, grid SRS -> request SRS) by closed formulas"""
+    if gsrs == rsrs:
+        return _same, _same
+    return (merc_to_deg, deg_to_merc) if rsrs == 'EPSG:3857' else (deg_to_merc, merc_to_deg)
 
 
 def reproj_requests(g, rng, n):
@@ -289,8 +304,7 @@ def reproj_requests(g, rng, n):
 
 
 def observe_reprojected(app, g, gsrs, rsrs, scale, variants, reqs, rng, problems):
-    to_grid = merc_to_deg if rsrs == 'EPSG:3857' else deg_to_merc
-    from_grid = deg_to_merc if rsrs == 'EPSG:3857' else merc_to_deg
+    to_grid, from_grid = transforms(gsrs, rsrs)
     maps = []
     for cx, cy, lres, w, h in reqs:
         X, Y = from_grid(cx * scale, cy * scale)
@@ -334,10 +348,9 @@ def observe_reprojected(app, g, gsrs, rsrs, scale, variants, reqs, rng, problems
     return maps
 
 
-def observe_reprojected_infos(app, g, rsrs, scale, variants, n, rng, problems):
+def observe_reprojected_infos(app, g, gsrs, rsrs, scale, variants, n, rng, problems):
     """feature-info requests in the SRS that the source does not speak: (clicked pixel on the grid, what the upstream is asked)"""
-    to_grid = merc_to_deg if rsrs == 'EPSG:3857' else deg_to_merc
-    from_grid = deg_to_merc if rsrs == 'EPSG:3857' else merc_to_deg
+    to_grid, from_grid = transforms(gsrs, rsrs)
     infos = []
     for k in range(n):
         cx, cy = rng.uniform(100, 1180), rng.uniform(100, 1180)
@@ -392,10 +405,13 @@ def reprojected_phase(ctx):
     g = L.spec_grid('Gbig')
     for name, gsrs, scale, rsrs, variants in REPROJ:
         problems = []
-        app = L.LatticeApp(g, srs=gsrs, scale=scale, wms_srs=[gsrs, rsrs], meta_size=(1, 1), featureinfo=True)
+        kw = {}
+        if '/cascade/' in name:
+            kw = dict(source_coverage=g['bbox'], extra_conf={'layers': [{'name': 'lay', 'title': 'lay', 'sources': ['up']}]})
+        app = L.LatticeApp(g, srs=gsrs, scale=scale, wms_srs=sorted({gsrs, rsrs}), meta_size=(1, 1), featureinfo=True, **kw)
         try:
             maps = observe_reprojected(app, g, gsrs, rsrs, scale, variants, reproj_requests(g, ctx.rng, n), ctx.rng, problems)
-            infos = observe_reprojected_infos(app, g, rsrs, scale, variants, n, ctx.rng, problems)
+            infos = observe_reprojected_infos(app, g, gsrs, rsrs, scale, variants, n, ctx.rng, problems)
         finally:
             app.close()
         d = ctx.sub('tr-' + name.replace('/', '_').replace('<-', '_from_'))
